@@ -6,7 +6,8 @@ props=${*:-C01 C02 C03 C04 C05 C06 C07 C08 C09 C10 C11 C12 C13 C14 C15 C16 C17 C
 export GOFLAGS=-mod=mod GOPROXY=off GOSUMDB=off GOTOOLCHAIN=local
 d=/tmp/all-$$
 git -C /repo worktree add -q --detach $d HEAD || exit 9
-cleanup() { git -C /repo worktree remove --force $d 2>/dev/null; rm -f /verif/.build/*.mod /verif/.build/*.sum /verif/.build/props.test.go.* /verif/.build/props.race.test.go.*; }
+tag=$(python3 -c "import hashlib;print(hashlib.sha1('$d'.encode()).hexdigest()[:8])")
+cleanup() { git -C /repo worktree remove --force $d 2>/dev/null; rm -f /verif/.build/go.$tag.mod /verif/.build/go.$tag.sum /verif/.build/props.test.go.$tag.mod /verif/.build/props.race.test.go.$tag.mod; }
 trap cleanup EXIT
 echo "== $src: $(python3 -c "import json;print(json.load(open('$src/meta.json')).get('what','')[:200])")"
 git -C $d apply $src/patch.diff || { echo "PATCH DOES NOT APPLY"; exit 8; }
